@@ -2237,7 +2237,9 @@ static bool is_const_expr(Node *node) {
       return false;
     return is_const_expr(eval_truth(node->cond) ? node->then : node->els);
   case ND_COMMA:
-    return is_const_expr(node->rhs);
+    // The left operand is evaluated for its side effects; folding the
+    // expression to its right operand must not drop any.
+    return is_const_expr(node->lhs) && is_const_expr(node->rhs);
   case ND_NEG:
   case ND_NOT:
   case ND_BITNOT:
